@@ -150,6 +150,22 @@ func Order(site string, m interface{}) []reflect.Value {
 }
 `
 
+// sdkOrderSrc is added (by the overlay) to a dependency package whose map ranges are rewritten.
+const sdkOrderSrc = `
+
+// VerifOrder is set by the verification harness (to verifhook.Order); nil means sorted key order.
+var VerifOrder func(site string, m interface{}) []reflect.Value
+
+func verifOrder(site string, m interface{}) []reflect.Value {
+	if VerifOrder != nil {
+		return VerifOrder(site, m)
+	}
+	keys := reflect.ValueOf(m).MapKeys()
+	sort.Slice(keys, func(i, j int) bool { return fmt.Sprint(keys[i].Interface()) < fmt.Sprint(keys[j].Interface()) })
+	return keys
+}
+`
+
 type siteInfo struct {
 	File string `json:"file"`
 	Line int    `json:"line"`
@@ -174,10 +190,20 @@ func main() {
 		fmt.Fprintln(os.Stderr, "load:", err)
 		os.Exit(3)
 	}
+	// SDK code the modules call to build what a block emits: typed events are turned into attribute lists by ranging
+	// over a map (cosmos-sdk v0.45 types/events.go TypedEventToEvent). Only the map ranges of these files are rewritten
+	extraFiles := map[string]bool{"types/events.go": true}
+	extra, err := packages.Load(cfg, "github.com/cosmos/cosmos-sdk/types")
+	if err != nil {
+		fmt.Fprintln(os.Stderr, "load:", err)
+		os.Exit(3)
+	}
+	nOwn := len(pkgs)
+	pkgs = append(pkgs, extra...)
 	overlay := map[string]string{}
 	var sites []siteInfo
-	gvars, suspects := sharedState(pkgs, &sites)
-	for _, p := range pkgs {
+	gvars, suspects := sharedState(pkgs[:nOwn], &sites)
+	for pi, p := range pkgs {
 		for _, e := range p.Errors {
 			fmt.Fprintln(os.Stderr, "package error:", e)
 			os.Exit(3)
@@ -187,6 +213,16 @@ func main() {
 			fname := p.Fset.Position(f.Pos()).Filename
 			if strings.HasSuffix(fname, "_test.go") || strings.HasSuffix(fname, ".pb.go") || strings.HasSuffix(fname, ".pb.gw.go") {
 				continue
+			}
+			sdkFile := pi >= nOwn
+			if sdkFile {
+				ok := false
+				for suf := range extraFiles {
+					ok = ok || strings.HasSuffix(fname, "/"+suf)
+				}
+				if !ok {
+					continue
+				}
 			}
 			changed := false
 			qual := func(other *types.Package) string {
@@ -198,6 +234,9 @@ func main() {
 			astutil.Apply(f, nil, func(c *astutil.Cursor) bool {
 				// wall clock, timers, randomness, goroutines: consensus code must not depend on them. The calls with a
 				// two-valued model become choice points, the others are reported as uninstrumented.
+				if _, isRange := c.Node().(*ast.RangeStmt); sdkFile && !isRange {
+					return true
+				}
 				if gs, ok := c.Node().(*ast.GoStmt); ok {
 					pos := p.Fset.Position(gs.Pos())
 					sites = append(sites, siteInfo{File: pos.Filename, Line: pos.Line, Key: "go statement", Kind: "clock", Why: "goroutine started in module code"})
@@ -286,8 +325,14 @@ func main() {
 					pre = append(pre, &ast.AssignStmt{Lhs: []ast.Expr{ast.NewIdent("_")}, Tok: token.ASSIGN, Rhs: []ast.Expr{ast.NewIdent(valName)}})
 				}
 				body := &ast.BlockStmt{List: append(pre, rs.Body.List...)}
+				var orderFn ast.Expr = &ast.SelectorExpr{X: ast.NewIdent("verifhook"), Sel: ast.NewIdent("Order")}
+				if sdkFile {
+					// a dependency cannot import the overlay-only hook package: it calls a function variable of its own
+					// package (added by the overlay) which the harness points at verifhook.Order
+					orderFn = ast.NewIdent("verifOrder")
+				}
 				repl := &ast.RangeStmt{Key: ast.NewIdent("_"), Value: ast.NewIdent("__vk"), Tok: token.DEFINE,
-					X:    &ast.CallExpr{Fun: &ast.SelectorExpr{X: ast.NewIdent("verifhook"), Sel: ast.NewIdent("Order")}, Args: []ast.Expr{&ast.BasicLit{Kind: token.STRING, Value: fmt.Sprintf("%q", site)}, rs.X}},
+					X:    &ast.CallExpr{Fun: orderFn, Args: []ast.Expr{&ast.BasicLit{Kind: token.STRING, Value: fmt.Sprintf("%q", site)}, rs.X}},
 					Body: body}
 				c.Replace(repl)
 				si.Done = true
@@ -295,10 +340,27 @@ func main() {
 				changed = true
 				return true
 			})
-			if instrumentShared(p, f, suspects) {
+			if !sdkFile && instrumentShared(p, f, suspects) {
 				changed = true
 			}
 			if !changed {
+				continue
+			}
+			if sdkFile {
+				// (the go command lists the files of a module-cache package from its index: an overlay can replace such a
+				// file but not add one, so the helper is appended to the rewritten file itself)
+				for _, imp := range []string{"fmt", "reflect", "sort"} {
+					astutil.AddImport(p.Fset, f, imp)
+				}
+				var buf bytes.Buffer
+				if err := printer.Fprint(&buf, p.Fset, f); err != nil {
+					fmt.Fprintln(os.Stderr, err)
+					os.Exit(3)
+				}
+				buf.WriteString(sdkOrderSrc)
+				dst := filepath.Join(*out, "sdk__"+filepath.Base(filepath.Dir(fname))+"__"+filepath.Base(fname))
+				os.WriteFile(dst, buf.Bytes(), 0o644)
+				overlay[fname] = dst
 				continue
 			}
 			astutil.AddImport(p.Fset, f, hookPath)
@@ -313,6 +375,9 @@ func main() {
 				os.Exit(3)
 			}
 			rel, _ := filepath.Rel(*module, fname)
+			if sdkFile {
+				rel = "sdk__" + filepath.Base(filepath.Dir(fname)) + "__" + filepath.Base(fname)
+			}
 			dst := filepath.Join(*out, strings.ReplaceAll(rel, string(filepath.Separator), "__"))
 			os.WriteFile(dst, buf.Bytes(), 0o644)
 			overlay[fname] = dst
